@@ -407,12 +407,17 @@ def subgrid(ts, dt, n):
     return np.asarray(ts)[:, None] + np.arange(n)[None, :] * (dt / n)
 
 
-def reference(stg, ax, sig, opts, ts_eval=None):
+def reference(stg, ax, sig, opts, ts_eval=None, cache=None):
     """
     Expected signal on the full band of ax. ts_eval: the times at which path / time profile are
     to be evaluated (default: the frame's own axis; cadence injection passes shifted times).
+    cache: dict shared between the frames of one cadence injection, so that closures (and the
+    random state of seeded families) are created once and called frame after frame, as the one
+    callable handed to the library is.
     Returns (expected[T, N], tol[T, N] or scalar, exclude[T, N] bool mask of discontinuity pixels).
     """
+    if cache is None:
+        cache = {}
     ts = ax.ts if ts_eval is None else np.asarray(ts_eval, dtype=float)
     T, N = ax.T, ax.N
     smear = bool(opts.get('doppler_smearing'))
@@ -429,9 +434,12 @@ def reference(stg, ax, sig, opts, ts_eval=None):
     elif tk == 'array':
         tp = t_array(ax, t)
     else:
-        fn = t_callable(ax, t)
-        if fn is None:          # randomised family: same-seed twin, called once like the frame does
-            fn = stg_t(stg, ax, t)
+        fn = cache.get('t_fn')
+        if fn is None:
+            fn = t_callable(ax, t)
+            if fn is None:      # randomised family: same-seed twin, called once like the frame does
+                fn = stg_t(stg, ax, t)
+            cache['t_fn'] = fn
         if opts.get('integrate_t_profile'):
             g = subgrid(ts, ax.dt, n_t)
             y = np.asarray(fn(g.ravel()), dtype=float)
@@ -449,7 +457,9 @@ def reference(stg, ax, sig, opts, ts_eval=None):
     elif pk == 'array':
         pc = path_array(ax, p, T_eff)
     else:
-        fn = path_callable(ax, p)
+        fn = cache.get('path_fn')
+        if fn is None:
+            fn = cache['path_fn'] = path_callable(ax, p)
         tt = ts_ext if smear else ts
         if opts.get('integrate_path'):
             g = subgrid(tt, ax.dt, n_t)
